@@ -25,7 +25,7 @@ CLAIMS = {
          "consumes handles and that one does so unconditionally, failure -> INVALID mapping, operand validation in op1/op2/op3, no "
          "exported function returns one of its argument handles except the reference-taking *_ref functions, parallel C arrays are "
          "zipped before filtering; the bdd/bcdd/zbdd variants of each exported function are the same program up to the kind's names "
-         "(sibling comparison of normalised HIR incl. the handle conversions and the INVALID constant, 1 reviewed deviation); EMPTY / INVALID constants are null / zero-length (E-FFI.empty). Pointer operations lie on the non-null edge of null tests (E-FFI.null). "
+         "(sibling comparison of normalised HIR incl. the handle conversions and the INVALID constant, 1 reviewed deviation); EMPTY / INVALID constants are null / zero-length (E-FFI.empty); bool status results follow handle_err_or_init (E-FFI.status). Pointer operations lie on the non-null edge of null tests (E-FFI.null). "
          "Call-sequence equivalence with the Rust API is not decided.",
          "HIR/MIR who-may-call and typestate rules", "3.7, 4 C19"),
  "C16": ("E-VNM(.lockstep,.clone) + E-EVENT + E-UNITS: the name map's push/insert, displace/remove and free discipline on every path; the "
